@@ -257,13 +257,18 @@ async def _replay(path: str, regen_path: str) -> tuple[list[dict], Any]:
     return [_pkt_rec(p) for p in proto.pkts], proto.lost
 
 
-def log_session(offers: list[dict], via: str = "port") -> dict:
-    """offers: [{dtm (datetime), rssi, frame, err, comment}] -> item for PktLogTrace."""
+LOG_CFGS = {"plain": {}, "bytes": {"rotate_bytes": 50_000_000}, "midnight": {"rotate_backups": 3},
+            "bytes+backups": {"rotate_bytes": 50_000_000, "rotate_backups": 5}}
+
+
+def log_session(offers: list[dict], via: str = "port", logcfg: str = "plain") -> dict:
+    """offers: [{dtm (datetime), rssi, frame, err, comment}] -> item for PktLogTrace.
+    logcfg: how the packet log is configured (the three handler classes of set_pkt_logging; no rollover happens)."""
     tmp = tempfile.mkdtemp(prefix="c02log_")
     p1, p2 = f"{tmp}/gen1.log", f"{tmp}/gen2.log"
     try:
         t_start = dt.now() - td(seconds=1)
-        set_pkt_logging(_packet.PKT_LOGGER, file_name=p1)
+        set_pkt_logging(_packet.PKT_LOGGER, file_name=p1, **LOG_CFGS[logcfg])
         written = []
         for o in offers:
             line = f"{o['rssi']} {o['frame']}" + (f" * {o['err']}" if o["err"] else "") + (f" # {o['comment']}" if o["comment"] else "")
